@@ -27,7 +27,9 @@ RULE = (
     "(construction) two, then a third, aggregator from separate calls of the same constructor relying on default "
     "arguments (every primitive with defaults, the .ing synonyms, histogrammar.convenience, DataFrame.hg_* methods): "
     "filling one leaves the others at their initial document, a later-constructed one starts empty, identity sets are "
-    "disjoint; and a parent built from a user-supplied template that is filled afterwards behaves exactly like a twin "
+    "disjoint; 2..4 calls of the past-tense constructors with defaulted dictionary arguments (Label.ed, UntypedLabel.ed, "
+    "Categorize.ed; keyword or dictionary style, generated key sets): each result holds exactly the children it was "
+    "given and shares nothing with the others; and a parent built from a user-supplied template that is filled afterwards behaves exactly like a twin "
     "built from a pristine template.  Non-trivial: a history in which an object derived by a pure rule, or one of its "
     "sources, is mutated after the derivation; any construction case; distinct by sha1 of the op list / case."
 )
@@ -279,7 +281,14 @@ def strategy(tier):
 
     @st.composite
     def cases(draw):
-        mode = draw(st.sampled_from(("ctor", "ctor", "df", "template", "template", "derive", "derive", "derive")))
+        mode = draw(st.sampled_from(("ctor", "ctor", "ed", "df", "template", "template", "derive", "derive", "derive")))
+        if mode == "ed":
+            keysets = st.lists(st.sampled_from(("a", "b", "c", "d", "entries", "pairsAsDict")), unique=True, max_size=3)
+            return {
+                "mode": "ed",
+                "ctor": draw(st.sampled_from(("Label.ed", "UntypedLabel.ed", "Categorize.ed"))),
+                "calls": draw(st.lists(st.tuples(keysets, st.sampled_from(("kwargs", "kwargs", "dict")), st.sampled_from((1.0, 2.0, 0.0))), min_size=2, max_size=4)),
+            }
         if mode == "derive":
             dopts = gen.TreeOpts(max_depth=3, bag_ranges=("N", "S"), count_transforms=False, max_bins=6)
             spec, focus = draw(gen.specs_and_focus(dopts, 5))
@@ -342,6 +351,50 @@ def run_ctor(case):
     fill_rows(c, case["rows2"], not case["numpy"])
     require(snapshot(a) == da, "interference", f"filling the second/third {case['ctor']} changed the first", sig)
     return {"nontrivial": True, "labels": ["mode:ctor", "ctor:" + case["ctor"]]}
+
+
+def run_ed(case):
+    """Separate calls of the past-tense constructors that rely on default arguments (Label.ed, UntypedLabel.ed,
+    Categorize.ed accept `pairsAsDict=None, **pairs`): each result holds exactly the children it was given."""
+    hg = lib()
+    name = case["ctor"]
+    sig = {"ctor": name}
+    made = []
+    # four fixed calls come first, so that whatever a call leaves behind shows within this very case (a replay in a
+    # fresh process sees what the campaign saw)
+    for keys, style, n in [[["p0"], "kwargs", 1.0], [["p1"], "dict", 1.0], [["p2"], "kwargs", 1.0], [["p3"], "dict", 1.0]] + [list(c) for c in case["calls"]]:
+        if name != "Categorize.ed":
+            keys = [k for k in keys if k not in ("entries", "pairsAsDict")] if style == "kwargs" else keys  # noqa: PLW2901
+        else:
+            keys = [k for k in keys if k not in ("entries", "contentType", "binsAsDict", "pairsAsDict")] if style == "kwargs" else keys  # noqa: PLW2901
+        children = {k: hg.Count.ed(n + i) for i, k in enumerate(keys)}
+        given = dict(children)
+        if name in ("Label.ed", "UntypedLabel.ed"):
+            if not children:
+                continue  # a Label needs at least one child
+            ctor = getattr(hg, name.split(".")[0]).ed
+            h = ctor(n, **children) if style == "kwargs" else ctor(n, children)
+            got = dict(zip(h.keys, h.values))
+        else:
+            h = hg.Categorize.ed(n, "Count", **children) if style == "kwargs" else hg.Categorize.ed(n, "Count", children)
+            got = dict(h.bins)
+        require(given == children and all(given[k] is children[k] for k in given), "argument-mutated", f"{name} changed the dictionary it was given", sig)
+        require(
+            set(got) == set(given) and all(norm.same(norm.norm(got[k].toJson()), norm.norm(given[k].toJson()), norm.BITEXACT) for k in given),
+            "later-not-empty",
+            lambda: f"{name}(entries={n}, {sorted(given)}) [{style}] after {len(made)} earlier call(s) holds the children {sorted(got)}",  # noqa: B023
+            sig,
+        )
+        made.append((h, snapshot(h)))
+    for i, (h, snap) in enumerate(made):
+        _ = h + h
+        for j, (o, osnap) in enumerate(made):
+            require(snapshot(o) == osnap, "interference", f"{name}: result {j} changed after result {i} was merged / later results were constructed", sig)
+            if i < j:
+                sh = walk.identity_set(h) & walk.identity_set(o)
+                # the child aggregators are the caller's objects: two results given different children share nothing
+                require(not sh, "shared-mutable-state", lambda: f"two {name} results share mutable state: {walk.shared(h, o)[:4]}", sig)  # noqa: B023
+    return {"nontrivial": len(made) >= 2, "labels": ["mode:ed", "ctor:" + name, f"calls:{len(made)}"]}
 
 
 def run_df(case):
@@ -502,6 +555,8 @@ def check(case):
         return run_ctor(case)
     if m == "df":
         return run_df(case)
+    if m == "ed":
+        return run_ed(case)
     if m == "template":
         return run_template(case)
     return run_history(case)
